@@ -343,3 +343,153 @@ Proof.
   assert (Hin : In n (seq 0 41)) by (apply in_seq; lia). specialize (H Hin). cbv beta in H.
   destruct (run _ _ n _ _); try discriminate. reflexivity.
 Qed.
+
+(* F5 for EVERY fuel: the key of the k-th nested load is (./)^k t.scss, never locked before *)
+Fixpoint dots (k : nat) : string := match k with O => "" | S k' => ("./" ++ dots k')%string end.
+Definition key (k : nat) : string := (dots k ++ "t.scss")%string.
+
+Lemma split_dir_dot r : split_dir ("./" ++ r)%string = (("./" ++ fst (split_dir r))%string, snd (split_dir r)).
+Proof.
+  cbn [append split_dir]. destruct (split_dir r) as [b n]. cbn [fst snd].
+  destruct (String.eqb b "") eqn:E.
+  - apply String.eqb_eq in E. subst b. reflexivity.
+  - cbn. reflexivity.
+Qed.
+
+Lemma split_dir_dots m x : split_dir (dots m ++ x)%string = ((dots m ++ fst (split_dir x))%string, snd (split_dir x)).
+Proof.
+  induction m as [|m IH]; cbn [dots append].
+  - destruct (split_dir x); reflexivity.
+  - change (String "." (String "/" (dots m ++ x)%string)) with ("./" ++ (dots m ++ x))%string.
+    rewrite split_dir_dot, IH. reflexivity.
+Qed.
+
+Lemma segments_dot r : segments ("./" ++ r)%string = "." :: segments r.
+Proof. reflexivity. Qed.
+
+Lemma isfile_dot files r : fs_isfile files ("./" ++ r)%string = fs_isfile files r.
+Proof. unfold fs_isfile. rewrite segments_dot. reflexivity. Qed.
+
+Lemma isfile_dots files m x : fs_isfile files (dots m ++ x)%string = fs_isfile files x.
+Proof.
+  induction m as [|m IH]; cbn [dots append]; [reflexivity|].
+  change (String "." (String "/" (dots m ++ x)%string)) with ("./" ++ (dots m ++ x))%string.
+  rewrite isfile_dot. exact IH.
+Qed.
+
+Lemma dots_shift k x : (dots k ++ "./" ++ x)%string = (dots (S k) ++ x)%string.
+Proof.
+  induction k as [|k IH]; [reflexivity|].
+  cbn [dots append] in *. rewrite IH. reflexivity.
+Qed.
+
+Lemma length_dots k x : String.length (dots k ++ x)%string = 2 * k + String.length x.
+Proof. induction k as [|k IH]; cbn [dots append String.length]; [reflexivity|]. rewrite IH. lia. Qed.
+
+Lemma key_neq j k : j <= k -> key (S k) <> key j.
+Proof.
+  intros H E. apply (f_equal String.length) in E. unfold key in E. rewrite !length_dots in E. lia.
+Qed.
+
+Lemma mem_false p l : (forall x, In x l -> x <> p) -> mem p l = false.
+Proof.
+  induction l as [|y r IH]; intros H; cbn; [reflexivity|].
+  rewrite IH by (intros; apply H; right; assumption).
+  assert (p <> y) by (intros ->; apply (H y); [left; reflexivity|reflexivity]).
+  apply String.eqb_neq in H0. rewrite H0. reflexivity.
+Qed.
+
+Lemma ends_with_cons c r suf : ends_with r suf = true -> ends_with (String c r) suf = true.
+Proof. intros H. cbn [ends_with]. destruct (String.eqb (String c r) suf); [reflexivity|exact H]. Qed.
+
+Lemma ends_with_dots_true m x suf : ends_with x suf = true -> ends_with (dots m ++ x)%string suf = true.
+Proof.
+  intros H. induction m as [|m IH]; cbn [dots append]; [exact H|].
+  apply ends_with_cons, ends_with_cons. exact IH.
+Qed.
+
+Lemma not_direct m : is_direct (dots m ++ "t")%string = false.
+Proof.
+  unfold is_direct. cbn [direct_suffixes existsb].
+  induction m as [|m IH]; [reflexivity|].
+  cbn [dots append]. cbn [ends_with String.eqb Ascii.eqb Bool.eqb andb]. exact IH.
+Qed.
+
+Definition files_t : list string := ["t.scss"].
+Definition lk (u : string) : option string := fs_lookup files_t [""] u.
+
+Lemma lk_dots m x : x <> "" -> lk (dots m ++ x)%string = fs_isfile files_t x.
+Proof.
+  intros Hx. unfold lk, fs_lookup, fs_find.
+  assert (E : String.eqb (dots m ++ x)%string "" = false).
+  { apply String.eqb_neq. intros E. apply (f_equal String.length) in E. rewrite length_dots in E.
+    destruct x; [congruence|cbn in E; lia]. }
+  rewrite E. cbn [first_some join String.eqb]. rewrite isfile_dots. destruct (fs_isfile files_t x); reflexivity.
+Qed.
+
+Definition suffixes : list string :=
+  ["t.import.scss"; "_t.import.scss"; "t.scss"; "_t.scss"; "t/index.import.scss"; "t/_index.import.scss";
+   "t/index.scss"; "t/_index.scss"; "t.css"; "_t.css"].
+
+Lemma app_nil_r_str (s : string) : (s ++ "")%string = s.
+Proof. induction s; cbn; congruence. Qed.
+
+Lemma probe_key k :
+  probe_names (relative (key k) "./t") (cands KImport) = map (fun suf => (dots (S k) ++ suf)%string) suffixes.
+Proof.
+  unfold relative, key. rewrite split_dir_dots. cbn [fst]. change (fst (split_dir "t.scss")) with "".
+  rewrite app_nil_r_str. change "./t" with ("./" ++ "t")%string. rewrite (dots_shift k "t").
+  unfold probe_names. rewrite not_direct, split_dir_dots.
+  change (split_dir "t") with ("", "t"). cbn [fst snd]. rewrite app_nil_r_str.
+  reflexivity.
+Qed.
+
+Lemma try3 lookup s a b c rest id :
+  lookup a = None -> lookup b = None -> lookup c = Some id ->
+  try_names (orc_of lookup) s (a :: b :: c :: rest) = FFound c id true (called c (called b (called a s))).
+Proof. intros H1 H2 H3. cbn [try_names]. unfold orc_of. rewrite H1, H2, H3. reflexivity. Qed.
+
+Definition inv5 (k : nat) (s : state) : Prop := forall x, In x (loading s) -> exists j, j <= k /\ x = key j.
+
+Lemma find_step k s : inv5 k s ->
+  exists s1, find_file (orc_of lk) (key k) KImport "./t" s = LFile (key (S k)) "t.scss" s1
+             /\ loading s1 = key (S k) :: loading s.
+Proof.
+  intros I. unfold find_file. rewrite probe_key. unfold suffixes. cbn [map].
+  rewrite (try3 lk s _ _ _ _ "t.scss").
+  - fold (key (S k)).
+    assert (K : known_format (key (S k)) = true).
+    { unfold known_format, key. rewrite ends_with_dots_true by reflexivity. reflexivity. }
+    rewrite K. cbn [negb loading called].
+    rewrite mem_false.
+    + eexists. split; [reflexivity|]. reflexivity.
+    + intros x Hx E. subst x. apply I in Hx as (j & Hj & Ej). exact (key_neq j k Hj Ej).
+  - rewrite lk_dots by discriminate. vm_compute. reflexivity.
+  - rewrite lk_dots by discriminate. vm_compute. reflexivity.
+  - rewrite lk_dots by discriminate. vm_compute. reflexivity.
+Qed.
+
+Lemma orc_spelling : oracle_of w_spelling MNorm = orc_of lk.
+Proof. reflexivity. Qed.
+
+Lemma diverge n : forall k s, inv5 k s ->
+  load (orc_of lk) (assoc_body w_spelling) n false (key k) KImport "./t" s = RFuel.
+Proof.
+  induction n as [|n IH]; intros k s I; [reflexivity|].
+  cbn [load]. destruct (find_step k s I) as (s1 & F & L1). rewrite F.
+  change (assoc_body w_spelling "t.scss") with [DLoad KImport "./t"]. cbn [exec_body].
+  rewrite (IH (S k)); [reflexivity|].
+  intros x Hx. cbn [loading note set_cache] in Hx. rewrite L1 in Hx. destruct Hx as [<-|Hx].
+  - exists (S k). split; [lia|reflexivity].
+  - apply I in Hx as (j & Hj & ->). exists j. split; [lia|reflexivity].
+Qed.
+
+Lemma refuted_spelling_all : forall n,
+  run (oracle_of w_spelling MNorm) (assoc_body w_spelling) n "t.scss" "t.scss" = RFuel.
+Proof.
+  intros n. rewrite orc_spelling. unfold run.
+  change (assoc_body w_spelling "t.scss") with [DLoad KImport "./t"]. cbn [exec_body].
+  change "t.scss" with (key 0) at 1.
+  rewrite diverge; [reflexivity|].
+  intros x [<-|[]]. exists 0. split; [lia|reflexivity].
+Qed.
